@@ -148,6 +148,8 @@ type FnCtx struct {
 	globals   map[*ssa.Global]*Term
 	stack     []*ssa.Function
 	oldVals   map[ssa.Instruction]Value // recorded Old() operands (pre-state pass)
+	inQuant   int                        // >0 while a quantifier body is evaluated
+	topDec    *Term                      // value of the function-level variant at entry (recursive lemmas)
 	oldBinders map[*ssa.Call]*Term      // bound variables of quantifier call sites, shared by the two passes
 	oldMode   int                       // 1 = recording pass, 2 = replay pass
 	specFuns  map[string]bool
@@ -771,6 +773,19 @@ func (c *FnCtx) assumeWF(st *State, v *Term, typ types.Type) {
 		// payloads that are references are allocated
 		c.assume(st, f.And(f.Le(f.Int(0), f.IfTyp(v)), f.Le(f.IfVal(v), st.alpha),
 			f.Implies(f.Eq(f.IfTyp(v), f.Int(0)), f.Eq(f.IfVal(v), f.Int(0)))))
+		// Go typing: the dynamic type implements the static interface type. Stated for interfaces
+		// declared in the module against the module's pointer-to-struct types (what object() frames
+		// range over).
+		if nt, ok := typ.(*types.Named); ok && c.inQuant == 0 && nt.Obj().Pkg() != nil && strings.HasPrefix(nt.Obj().Pkg().Path(), ModulePath) && u.NumMethods() > 0 {
+			var ne []*Term
+			for _, sn := range c.e.moduleStructs() {
+				pt := types.NewPointer(sn)
+				if !types.Implements(pt, u) {
+					ne = append(ne, f.Not(f.Eq(f.IfTyp(v), f.Int(int64(c.e.TypeID(pt))))))
+				}
+			}
+			c.assume(st, f.And(ne...))
+		}
 	case *types.Struct:
 		si := c.structInfoOf(typ)
 		if v.op == "|mk"+si.name+"|" {
